@@ -2,7 +2,7 @@
    str()/bytes()/re answers: the oracles of the statement), d over every trait description,
    v over every value, histories over every list of operations. *)
 From Coq Require Import ZArith List Bool.
-From TV Require Import Common.PyVal Common.Harness C03.Model C03.Law C03.Proofs C01.Model C01.Law C01.Proofs.
+From TV Require Import Common.PyVal Common.Harness C03.Model C03.Law C03.Proofs C01.Model C01.Law C01.Proofs C01.LawProofs.
 Import ListNotations.
 Open Scope Z_scope.
 
@@ -91,6 +91,21 @@ Theorem fresh_instance_in_domain : forall E c, Inv E c [].
 Proof. exact inv_empty. Qed.
 Print Assumptions fresh_instance_in_domain.
 
+(* The law itself — the five clauses that are evaluated on the implementation's observations — is []
+   at every step of every history of the model: attribute assignments, trait_set calls with any
+   number of distinct keywords, constructor calls with keywords; started in any dictionary that
+   satisfies the two invariants (in particular a fresh instance). *)
+Theorem law_holds_on_every_history :
+  forall E c, class_ok E c = true -> post_safe c = true -> keys_unique c ->
+  forall ops s i, Inv E c s -> ShInv c s -> Forall (op_ok c) ops ->
+    law_hist E c i s (model_hist E c s ops) = [].
+Proof. exact law_on_every_history. Qed.
+Print Assumptions law_holds_on_every_history.
+
+Theorem fresh_instance_shadows_consistent : forall c, ShInv c [].
+Proof. exact shinv_empty. Qed.
+Print Assumptions fresh_instance_shadows_consistent.
+
 (* Non-vacuity: a class with a Tuple(Int, exclusive float Range), a Map (with shadow) and a
    Union(String(maxlen=5), CInt) meets class_ok / post_safe; a history that converts, rejects,
    constructs and stores. *)
@@ -104,3 +119,21 @@ Example hypotheses_nonvacuous :
                         (Ctor, [(2, PStr [49; 50])]); (Attr, [(2, PInt 7)])])
   = [Ok; Raise ETraitError; Ok; Ok].
 Proof. exact class_ok_example. Qed.
+
+Example law_hypotheses_nonvacuous :
+  let c := [(0, (DTuple [DInt; DRangeF (Some (FFin false 0)) None 1], PTuple [PInt 0; PFloat (FFin false 0)]));
+            (1, (DMap [(PStr [97], PInt 1); (PInt 1, PInt 2)], PStr [97]));
+            (2, (DUnion [DString 0 5 None; DCast CTInt], PStr []))] in
+  let ops := [(Attr, [(1, PFloat (FFin false 1000))]); (TraitSet, [(0, PNone); (2, PInt 7)]);
+              (Ctor, [(2, PStr [49; 50]); (1, PStr [97])])] in
+  keys_unique c /\ Forall (op_ok c) ops /\
+  map (fun p => o_out (snd p)) (model_hist E0 c [] ops) = [Ok; Raise ETraitError; Ok] /\
+  get (o_after (snd (hd (((Attr, []) : op), mkObs Ok true []) (model_hist E0 c [] ops)))) (shadow 1) = Some (PInt 2).
+Proof.
+  cbv zeta. split; [|split; [|split]].
+  - intros n e [H|[H|[H|[]]]]; inversion H; reflexivity.
+  - repeat constructor; cbn; try (intros [H|H]; [discriminate | tauto]); try tauto;
+      try (intros p [H|[H|[]]]; subst; cbn; eauto); try (intros p [H|[]]; subst; cbn; eauto).
+  - vm_compute. reflexivity.
+  - vm_compute. reflexivity.
+Qed.
